@@ -19,10 +19,10 @@ constexpr auto wmemcpy(wchar_t* dest, wchar_t const* src, etl::size_t count) noe
 #if defined(__clang__)
     return __builtin_wmemcpy(dest, src, count);
 #else
-    if (count == 0) {
-        return dest;
+    for (etl::size_t i = 0; i != count; ++i) {
+        dest[i] = src[i];
     }
-    return etl::detail::strncpy(dest, src, count);
+    return dest;
 #endif
 }
 
